@@ -91,6 +91,15 @@ func (x *Exec) headStateFor(in ssa.Instruction) *State {
 		}
 	}
 	if best == nil {
+		// a return statement written inside a loop is not part of the natural loop (it leaves
+		// it): take the innermost loop head that dominates it
+		for _, li := range x.loops {
+			if li.head.Dominates(in.Block()) && (best == nil || best.head.Dominates(li.head)) {
+				best = li
+			}
+		}
+	}
+	if best == nil {
 		return nil
 	}
 	return x.headStates[best.head]
